@@ -603,15 +603,6 @@ theorem tight_update {sB : Sys} (hB : Inv sB) (hT : Tight sB) {al : Alloc} (hle 
               · cases hacc
 
 
-theorem getNode_putNode_self (l : List NodeObj) (o : NodeObj) : getNode (putNode l o) o.name = some o := by
-  cases h : getNode (putNode l o) o.name with
-  | none => exact absurd rfl (getNode_none_iff.mp h o (mem_putNode_self l o))
-  | some x =>
-    obtain ⟨hxm, hxn⟩ := mem_of_getNode h
-    rcases mem_putNode hxm with rfl | ⟨_, hne⟩
-    · rfl
-    · exact absurd hxn hne
-
 theorem tight_allocateOrOccupy {s : Sys} (h : Inv s) (hT : Tight s) (n : NodeObj) (hn : n ∈ s.nodeView) (hnd : n.deleting = false)
     (refresh : Bool) (ws : List WOut) (hws : ∀ w ∈ ws.take 3, w ≠ WOut.lost) :
     Tight (allocateOrOccupy s n refresh ws).1 := by
